@@ -23,11 +23,13 @@ def stack_cubes(prop):
                     dict(nfiles=2, listing=[[0, 1], [0]], dst="local", prop=prop, mode="expand", _w=2)]
             if prop == "C04":
                 out += [dict(nfiles=2, listing=[[0, 1], [0]], dst="local", prop=prop, abort=k) for k in (1, 2)]
+            out += [dict(nfiles=2, listing=[[0, 1], [0]], dst="base", prop=prop, label=True)]  # requested ids labelled with obj_name
             return out
         out = [dict(nfiles=2, listing=l, dst=d, prop=prop, ekind=True) for l in STACK_LISTINGS_Q for d in DSTS]
         out += [dict(nfiles=2, listing=l, dst=d, prop=prop, mode="expand") for l in STACK_LISTINGS_Q for d in DSTS]
         out += [dict(nfiles=2, listing=l, dst=d, prop=prop, index=True) for l in STACK_LISTINGS_Q for d in DSTS]
         out += [dict(nfiles=2, listing=l, dst="local", src="local", prop=prop) for l in STACK_LISTINGS_Q]
+        out += [dict(nfiles=2, listing=l, dst=d, prop=prop, label=True) for l in STACK_LISTINGS_Q for d in ("local", "remote")]
         out += [dict(nfiles=3, listing=l, dst=d, prop=prop, _w=4) for l in STACK_LISTINGS_T for d in ("local", "remote")]
         if prop == "C04":
             out += [dict(nfiles=2, listing=l, dst=d, prop=prop, abort=k) for l in STACK_LISTINGS_Q for d in ("local", "remote")
